@@ -196,23 +196,24 @@ pub fn minimise(orig: &RunSpec, orig_budgets: &[Budget], v0: &Violation) -> Mini
                 c.instances[i].data = DataMode::Unit;
                 progress |= attempt!(c);
             }
-            if cur.instances[i].dim.dynamic {
-                let mut c = cur.clone();
-                let n = c.instances[i].dim.n;
-                c.instances[i].dim = DimMode { dynamic: false, n };
-                for op in c.instances[i].ops.iter_mut() {
-                    if let BOp::NewDyn(_) = op {
-                        *op = BOp::New;
-                    }
-                }
-                progress |= attempt!(c);
-            }
             if cur.instances[i].dim.n > 1 {
                 let mut c = cur.clone();
                 c.instances[i].dim.n = 1;
                 for op in c.instances[i].ops.iter_mut() {
                     if let BOp::NewDyn(_) = op {
                         *op = BOp::NewDyn(1);
+                    }
+                }
+                progress |= attempt!(c);
+            }
+            // static dimensions are instantiated for 1..=4 only
+            if cur.instances[i].dim.dynamic && cur.instances[i].dim.n <= 4 {
+                let mut c = cur.clone();
+                let n = c.instances[i].dim.n;
+                c.instances[i].dim = DimMode { dynamic: false, n };
+                for op in c.instances[i].ops.iter_mut() {
+                    if let BOp::NewDyn(_) = op {
+                        *op = BOp::New;
                     }
                 }
                 progress |= attempt!(c);
